@@ -38,7 +38,7 @@ def disabled_mask(rng, placement, n_enabled):
     return out
 
 
-def gen_enum(rng, idx, n_enabled, placement, generics, kinds):
+def gen_enum(rng, idx, n_enabled, placement, generics, kinds, robust=False):
     """generics in {"none", "T", "TK", "TU"}"""
     name = "E%d" % idx
     mask = disabled_mask(rng, placement, n_enabled)
@@ -53,11 +53,13 @@ def gen_enum(rng, idx, n_enabled, placement, generics, kinds):
             pool += ["Arr<K>", "Arr<K>"]
         if generics == "TU":
             pool += ["U", "U"]
-        if dis and rng.random() < 0.5:
+        if robust:
+            pool = ["u8", "String"]
+        elif dis and rng.random() < 0.5:
             pool = ["NoDefault"]  # a disabled variant may hold a type without Default
         tys = [rng.choice(pool) for _ in range(nf)]
         extra = ""
-        if not dis and rng.random() < 0.15:
+        if not dis and not robust and rng.random() < 0.15:
             extra = rng.choice(['#[strum(serialize = "x%d")]' % vi, '#[strum(to_string = "t%d")]' % vi,
                                 '#[strum(message = "m")]', '#[strum(props(a = "b"))]'])
         variants.append(dict(ident="V%d" % vi, kind=kind, tys=tys, disabled=dis, extra=extra))
@@ -128,7 +130,8 @@ def describe(e):
 def generate(rng, seed, size):
     enums = []
     idx = 0
-    target = {"small": 24, "base": 96, "large": 160}[size]
+    target = {"small": 24, "base": 96, "large": 160, "robust": 30}[size]
+    robust = size == "robust"
     # systematic part: every N in 0..8 with every placement at least once
     combos = []
     for n in range(0, 9):
@@ -146,12 +149,16 @@ def generate(rng, seed, size):
             break
         generics = rng.choice(["none", "none", "none", "T", "TK", "TU"])
         kinds = rng.choice(kinds_opts)
+        if robust:
+            # conservative shapes only: no generics, unit / one-field tuple variants
+            generics = "none"
+            kinds = ["unit", "unit", "tuple"]
         if generics != "none" and kinds == ["unit"]:
             kinds = ["unit", "tuple"]
-        enums.append(gen_enum(rng, idx, n, pl, generics, kinds))
+        enums.append(gen_enum(rng, idx, n, pl, generics, kinds, robust))
         idx += 1
     # a few larger enums
-    for n in [13, 21, 33, 64][: max(1, target // 24)]:
+    for n in ([] if robust else [13, 21, 33, 64][: max(1, target // 24)]):
         enums.append(gen_enum(rng, idx, n, rng.choice(["none", "random", "alternating"]), "none", ["unit", "tuple"]))
         idx += 1
 
